@@ -85,12 +85,20 @@ enum Entry<C> {
 pub struct VersionedOperation<V> {
     op: Operation<V>,
     epoch: Epoch,
+    /// Order in which the operations were issued (ties within one epoch).
+    seq: u64,
 }
+
+/// Source of [`VersionedOperation::seq`].
+static NEXT_OPERATION_SEQ: std::sync::atomic::AtomicU64 =
+    std::sync::atomic::AtomicU64::new(0);
 
 impl<V> Eq for VersionedOperation<V> {}
 
 impl<V> PartialEq for VersionedOperation<V> {
-    fn eq(&self, other: &Self) -> bool { self.epoch.eq(&other.epoch) }
+    fn eq(&self, other: &Self) -> bool {
+        self.epoch.eq(&other.epoch) && self.seq == other.seq
+    }
 }
 
 impl<V> PartialOrd for VersionedOperation<V> {
@@ -100,8 +108,10 @@ impl<V> PartialOrd for VersionedOperation<V> {
 }
 
 impl<V> Ord for VersionedOperation<V> {
+    // reversed: the `BinaryHeap` must yield the OLDEST operation first, so
+    // that `FlushUpTo` can pop everything that has been committed
     fn cmp(&self, other: &Self) -> std::cmp::Ordering {
-        self.epoch.cmp(&other.epoch)
+        (other.epoch, other.seq).cmp(&(self.epoch, self.seq))
     }
 }
 
@@ -180,17 +190,20 @@ impl<V: Eq + Hash + Clone> ConcurrentLog<V> {
         let mut added = HashSet::with_hasher(FxBuildHasher::default());
         let mut removed = HashSet::with_hasher(FxBuildHasher::default());
 
-        for op in log.iter() {
+        // the heap iterates in arbitrary order: replay the operations in the
+        // order they were issued, the last operation on an element wins
+        let mut ops = log.iter().collect::<Vec<_>>();
+        ops.sort_unstable_by_key(|op| (op.epoch, op.seq));
+
+        for op in ops {
             match &op.op {
                 Operation::Insert(v) => {
-                    if removed.remove(v).not() {
-                        added.insert(v.clone());
-                    }
+                    removed.remove(v);
+                    added.insert(v.clone());
                 }
                 Operation::Remove(v) => {
-                    if added.remove(v).not() {
-                        removed.insert(v.clone());
-                    }
+                    added.remove(v);
+                    removed.insert(v.clone());
                 }
             }
         }
@@ -534,7 +547,12 @@ impl<
         // apply the operation to the log
         {
             log.apply_message(ConcurrentLogMessage::AppendOperation(
-                VersionedOperation { op: op.clone(), epoch },
+                VersionedOperation {
+                    op: op.clone(),
+                    epoch,
+                    seq: NEXT_OPERATION_SEQ
+                        .fetch_add(1, std::sync::atomic::Ordering::SeqCst),
+                },
             ));
         }
 
